@@ -1,4 +1,5 @@
 # adapted from https://github.com/ptrblck/pytorch_misc/blob/master/shared_dict.py
+import copy
 from multiprocessing import Manager
 
 from .cached_dataset import CachedDataset
@@ -21,7 +22,10 @@ class SharedDictDataset(CachedDataset):
                 # another process cleared the cache between the membership test and the lookup
                 sample = self.dataset[idx]
                 self.shared_dict[idx] = sample
-        return sample
+        # torch tensors travel to/from the manager process via shared memory, i.e. the tensors of `sample` (also of a
+        # freshly loaded one: storing it moves its storage into shared memory) alias the cached entry
+        # -> return a private copy such that inplace transforms/consumers can't modify the cache
+        return copy.deepcopy(sample)
 
     def dispose(self):
         self.shared_dict.clear()
